@@ -4,8 +4,10 @@ import (
 	"bytes"
 	"encoding/hex"
 	"fmt"
+	"math/big"
 	"regexp"
 	"strings"
+	"time"
 
 	"github.com/ovh/kmip-go/ttlv"
 
@@ -172,9 +174,14 @@ func wireEncCase(ctx *Ctx, t *tree.Item) {
 			}
 			ctx.Res.Violate(report.Violation{Property: "C01", Oracle: "roundtrip-generic", Key: "enc:roundtrip:" + strings.SplitN(rt, " ", 2)[0], Detail: "UnmarshalTTLV(MarshalTTLV(v)) gives " + d + " instead of v", Line: line})
 		}
+		// The independent writer emits the SHORTEST big integers; the property (and KMIP 1.4 §9.1.1.4) only ask
+		// for sign extension to a multiple of 8 bytes. A difference is therefore counted, not reported: whatever
+		// is wrong on the wire is seen by the strict parser above (it re-reads every length, padding and value).
 		if want := t.Encode(); !bytes.Equal(want, got) {
-			ctx.Res.Violate(report.Violation{Property: "C03", Oracle: "independent-writer", Key: "enc:bytes-differ", Detail: "independent writer gives " + hexUp(want) + " library " + hexUp(got), Line: line})
+			ctx.Res.Count("enc.differs-from-minimal-writer")
 		}
+		// the public writer API (Encoder.Struct/Integer/…/Bitmask), not only ttlv.Value, is an output path too
+		wireAPICase(ctx, line, t, got)
 	}
 	ctx.Add(line, impl, t.Size() > 1 || t.Kind == tree.KBig, "C01,C03")
 	// the same tree through a REUSED encoder (after other messages and Clear) must give the same bytes
@@ -184,12 +191,124 @@ func wireEncCase(ctx *Ctx, t *tree.Item) {
 			toValue(t).EncodeTTLV(&reusedEncoder)
 			return append([]byte{}, reusedEncoder.Bytes()...)
 		})
-		if pr != "" || !bytes.Equal(reuse, got) {
-			ctx.Res.Violate(report.Violation{Property: "C03", Oracle: "reused-encoder", Key: "enc:reused-encoder-differs", Detail: "a reused (cleared) encoder gives " + hexUp(reuse) + " " + pr + " instead of " + hexUp(got), Line: line})
+		// stated as the property: what a reused (cleared) encoder emits is well-formed and carries the same tree
+		if pr != "" {
+			ctx.Res.Violate(report.Violation{Property: "C03", Oracle: "reused-encoder", Key: "enc:reused-encoder-differs", Detail: "a reused (cleared) encoder panics: " + pr, Line: line})
+		} else if back, err := tree.Decode(reuse); err != nil || !tree.Equal(back, t) {
+			ctx.Res.Violate(report.Violation{Property: "C03", Oracle: "reused-encoder", Key: "enc:reused-encoder-differs", Detail: "a reused (cleared) encoder gives " + hexUp(reuse) + " instead of " + hexUp(got), Line: line})
+		} else if !bytes.Equal(reuse, got) {
+			ctx.Res.Count("enc.reused-differs-wellformed")
 		}
 	}
 	ctx.Res.Count(fmt.Sprintf("enc.kind=%d", t.Kind))
 	ctx.Res.Count(fmt.Sprintf("enc.depth=%d", min(t.Depth(), 9)))
+}
+
+// apiEncode writes t through the exported writer methods of ttlv.Encoder (the entry points hand-written
+// TagEncodeTTLV methods use). Integers go through Bitmask when mask is set (Value cannot hold a bit mask).
+func apiEncode(e *ttlv.Encoder, t *tree.Item, mask bool) {
+	switch t.Kind {
+	case tree.KStruct:
+		e.Struct(t.Tag, func(e *ttlv.Encoder) {
+			for _, c := range t.Children {
+				apiEncode(e, c, mask)
+			}
+		})
+	case tree.KInt:
+		if mask {
+			e.Bitmask(0, t.Tag, int32(t.Int))
+		} else {
+			e.Integer(t.Tag, int32(t.Int))
+		}
+	case tree.KLong:
+		e.LongInteger(t.Tag, t.Int)
+	case tree.KBig:
+		e.BigInteger(t.Tag, new(big.Int).Set(t.Big))
+	case tree.KEnum:
+		e.Enum(0, t.Tag, uint32(t.Int))
+	case tree.KBool:
+		e.Bool(t.Tag, t.Bool)
+	case tree.KText:
+		e.TextString(t.Tag, string(t.Data))
+	case tree.KBytes:
+		e.ByteString(t.Tag, append([]byte{}, t.Data...))
+	case tree.KDate:
+		e.DateTime(t.Tag, time.Unix(t.Int, 0))
+	case tree.KInterval:
+		e.Interval(t.Tag, time.Duration(t.Int)*time.Second)
+	}
+}
+
+func hasKind(t *tree.Item, k tree.Kind) bool {
+	if t.Kind == k {
+		return true
+	}
+	for _, c := range t.Children {
+		if hasKind(c, k) {
+			return true
+		}
+	}
+	return false
+}
+
+// wireAPICase: C03 on the writer API: both variants (Integer / Bitmask for 32-bit integers) must be read by
+// the independent parser as t. viaValue are the bytes MarshalTTLV gave for the same tree.
+func wireAPICase(ctx *Ctx, line string, t *tree.Item, viaValue []byte) {
+	for _, mask := range []bool{false, true} {
+		if mask && !hasKind(t, tree.KInt) {
+			continue
+		}
+		got, p := guard("Encoder API", func() []byte {
+			e := ttlv.NewTTLVEncoder()
+			apiEncode(&e, t, mask)
+			return append([]byte{}, e.Bytes()...)
+		})
+		what := "writer API"
+		if mask {
+			what = "writer API (Bitmask)"
+			ctx.Res.Count("enc.api.bitmask")
+		} else {
+			ctx.Res.Count("enc.api")
+		}
+		if p != "" {
+			ctx.Res.Violate(report.Violation{Property: "C03", Oracle: "encoder-total", Key: "enc:api-panic", Detail: what + " panicked: " + p, Line: line})
+			continue
+		}
+		back, err := tree.Decode(got)
+		if err != nil {
+			ctx.Res.Violate(report.Violation{Property: "C03", Oracle: "independent-parse", Key: "enc:api-not-wellformed:" + err.Error(), Detail: what + ": independent parser rejects library output: " + err.Error() + " bytes=" + hexUp(got), Line: line})
+		} else if !tree.Equal(back, t) {
+			ctx.Res.Violate(report.Violation{Property: "C03", Oracle: "independent-parse", Key: "enc:api-value-differs", Detail: what + ": independent parser reads " + back.Render(), Line: line})
+		}
+	}
+}
+
+// wireHugeCase (impl-side only: a 16 MiB line is not sent to the model): items whose length needs the top
+// byte of the 32-bit length field, alone and inside a structure (whose own length then needs it too).
+func wireHugeCase(ctx *Ctx, n int, kind tree.Kind) {
+	data := bytes.Repeat([]byte{0x61}, n)
+	leaf := &tree.Item{Kind: kind, Tag: 0x420008, Data: data}
+	t := &tree.Item{Kind: tree.KStruct, Tag: 0x420009, Children: []*tree.Item{{Kind: tree.KInt, Tag: 0x42000A, Int: 7}, leaf, {Kind: tree.KBool, Tag: 0x42000B, Bool: true}}}
+	line := fmt.Sprintf("# wire.huge kind=%d len=%d (structure 0x420009 {int 7, item of len bytes 0x61, bool true})", kind, n)
+	ctx.current = line
+	got, p := guard("MarshalTTLV", func() []byte { return ttlv.MarshalTTLV(toValue(t)) })
+	ctx.Res.Count("enc.huge")
+	if p != "" {
+		ctx.Res.Violate(report.Violation{Property: "C03", Oracle: "encoder-total", Key: "enc:huge-panic", Detail: "MarshalTTLV panicked: " + p, Line: line})
+		return
+	}
+	back, err := tree.Decode(got)
+	if err != nil {
+		ctx.Res.Violate(report.Violation{Property: "C03", Oracle: "independent-parse", Key: "enc:huge-not-wellformed:" + err.Error(), Detail: fmt.Sprintf("independent parser rejects the encoding of a %d-byte item: %s; header %s", n, err, hexUp(got[:min(len(got), 32)])), Line: line})
+	} else if !tree.Equal(back, t) {
+		ctx.Res.Violate(report.Violation{Property: "C03", Oracle: "independent-parse", Key: "enc:huge-value-differs", Detail: fmt.Sprintf("independent parser reads another tree for a %d-byte item; header %s", n, hexUp(got[:min(len(got), 32)])), Line: line})
+	}
+	var v ttlv.Value
+	_, p2 := guard("UnmarshalTTLV", func() error { return ttlv.UnmarshalTTLV(got, &v) })
+	if it, err := fromValue(v); p2 != "" || err != nil || !tree.Equal(it, t) {
+		ctx.Res.Violate(report.Violation{Property: "C01", Oracle: "roundtrip-generic", Key: "enc:huge-roundtrip", Detail: fmt.Sprintf("UnmarshalTTLV(MarshalTTLV(v)) differs from v for a %d-byte item %s", n, p2), Line: line})
+	}
+	ctx.Add(line, "ok", true, "C01,C03")
 }
 
 func wireDecCase(ctx *Ctx, b []byte, origin string) {
@@ -414,6 +533,11 @@ func runWire(ctx *Ctx) {
 	// large messages: the encoder's buffer grows (and is reallocated) while one or several structures are
 	// still open, at every depth; sizes straddle the powers of two an initial capacity or a growth policy
 	// could be tied to.
+	wireHugeCase(ctx, 1<<24+5, tree.KBytes)
+	if ctx.Thor {
+		wireHugeCase(ctx, 1<<24-3, tree.KText)
+		wireHugeCase(ctx, 1<<25+1<<16+9, tree.KText)
+	}
 	for _, sz := range largeSizes(r, ctx.N(14, 60)) {
 		t := largeTree(r, sz)
 		wireEncCase(ctx, t)
